@@ -350,6 +350,8 @@ package bitcoin_reader
 //@   ensures [C06.first-announcer-requests] !old(has(tm.txs, txid)) ==> result0 && has(tm.txs, txid) && tm.txs[txid] != nil && tm.txs[txid].Received == nil && len(tm.txs[txid].NodeIDs) == 0
 //@   ensures [C06.requester-not-listed] result0 && old(has(tm.txs, txid)) ==> !inIDs(tm.txs[txid].NodeIDs, nodeID)
 //@   ensures [C06.waiting-announcer-recorded] !result0 && old(has(tm.txs, txid) && tm.txs[txid].Received == nil) ==> inIDs(tm.txs[txid].NodeIDs, nodeID)
+//@   ensures [C06.single-outstanding] result0 && old(has(tm.txs, txid)) ==> since(old(tm.txs[txid].LastRequested)) >= aload(m.requestTimeout, time.Duration)
+//@   ensures [C06.outstanding-queues] old(has(tm.txs, txid) && tm.txs[txid].Received == nil) && since(old(tm.txs[txid].LastRequested)) < aload(m.requestTimeout, time.Duration) ==> !result0 && inIDs(tm.txs[txid].NodeIDs, nodeID)
 //@   ensures [C06.received-stable] old(has(tm.txs, txid)) ==> has(tm.txs, txid) && tm.txs[txid] == old(tm.txs[txid]) && tm.txs[txid].Received == old(tm.txs[txid].Received)
 //@   ensures [C06.no-error] result1 == nil
 //@   ensures [C06.invariant] tm != nil && tm.txs != nil && entryOK(tm, txid)
